@@ -3,6 +3,9 @@
   (`C02.SpeciesPerm p q`, what `Generation.FillPopulationStatistics` does) before `NextEpoch` runs on it.
   None of their hypotheses depends on the order inside a species (table in Props/C02Perm.lean); these are the
   transfers, stated so that the hypotheses are those of the original theorems ON `p` and the epoch runs on `q`.
+  Also the C10 RUN theorem under the permutation form of the evaluator hypothesis: `EvalKeepsPerm`,
+  `champInv_evalPerm`, `runEpochs_keeps_champions_perm` (the order-preserving `runEpochs_keeps_champions` is the
+  instance `runEpochs_keeps_champions_of_perm`), with a two-generation run whose evaluator reverses every species list.
   Kind A.
 -/
 import GoNeat.Props.C10Epoch
@@ -37,6 +40,141 @@ theorem nextEpoch_keeps_champion_perm (o : EpochOpts W) (gen : Int) (p q p' p1 :
       ∃ s' ∈ p'.species, ∃ x ∈ s'.orgs, x.uid ∈ p'.organisms ∧ IsCopy champ x :=
   nextEpoch_keeps_champion o gen q p' p1 ex rs rs1 rs' (hpq.sameShape.uidInv hu) (by rw [hpq.sameShape.ids]; exact hnd)
     (scZero_perm hpq hz) (refsOkPop_perm hpq hrefs) hprep h
+
+/-! ### every generation of a run, the evaluations may re-order inside the species -/
+
+/-- `EvalKeeps` with the order-insensitive shape relation: an evaluation between two epochs may assign fitness values
+    and the like AND re-order the organisms inside each species (`C02.SameShapePerm`), touches no genome, not the
+    registry, and reserves no champion clones.  `EvalKeeps` is the special case that keeps the order
+    (`EvalKeeps.toPerm`); `Generation.FillPopulationStatistics` is an instance (`evalKeepsPerm_of_speciesPerm`). -/
+def EvalKeepsPerm (q q' : Pop W) : Prop :=
+  C02.SameShapePerm q q' ∧ (∀ g ∈ C01.genomesOfPop q', g ∈ C01.genomesOfPop q) ∧ q'.reg = q.reg ∧ (ScZero q → ScZero q')
+
+/-- the old evaluator hypothesis implies the new one -/
+theorem EvalKeeps.toPerm {q q' : Pop W} (h : EvalKeeps q q') : EvalKeepsPerm q q' :=
+  ⟨h.1.toPerm, h.2.1, h.2.2.1, h.2.2.2⟩
+
+theorem EvalKeepsPerm.evalOkPerm {q q' : Pop W} (h : EvalKeepsPerm q q') : C02.EvalOkPerm q q' := ⟨h.1, h.2.1, h.2.2.1⟩
+
+theorem EvalKeepsPerm.refl (p : Pop W) : EvalKeepsPerm p p := ⟨C02.SameShapePerm.refl p, fun _ h => h, rfl, id⟩
+
+/-- evaluations compose (assign fitness, then `FillPopulationStatistics`, …) -/
+theorem EvalKeepsPerm.trans {p q r : Pop W} (h1 : EvalKeepsPerm p q) (h2 : EvalKeepsPerm q r) : EvalKeepsPerm p r :=
+  ⟨h1.1.trans h2.1, fun g hg => h1.2.1 g (h2.2.1 g hg), h2.2.2.1.trans h1.2.2.1, fun hz => h2.2.2.2 (h1.2.2.2 hz)⟩
+
+/-- **a within-species permutation is an admissible evaluation for C10** -/
+theorem evalKeepsPerm_of_speciesPerm {p q : Pop W} (h : C02.SpeciesPerm p q) : EvalKeepsPerm p q :=
+  ⟨h.sameShape, h.evalOkPerm.2.1, h.evalOkPerm.2.2, scZero_perm h⟩
+
+/-- the C10 run invariant survives an evaluation that re-orders inside the species (`champInv_eval` for the
+    permutation form) -/
+theorem champInv_evalPerm (q q' : Pop W) (he : EvalKeepsPerm q q') (h : ChampInv q) : ChampInv q' := by
+  obtain ⟨hsh, hg, hreg, hsc⟩ := he
+  obtain ⟨hu', hs'⟩ := C02.sameShapePerm_inv q q' hsh h.uid h.spid
+  exact ⟨hu', hs', hsc h.sc, by rw [hreg]; exact h.pool.subset hg⟩
+
+/-- **C10 over whole runs, evaluations may re-order inside the species.**  `runEpochs_keeps_champions` with
+    `EvalKeepsPerm` in place of `EvalKeeps` (which it implies: `EvalKeeps.toPerm`): starting from a population that
+    satisfies the invariant, in EVERY generation of a run of any length - evaluate (assign fitness, re-order the
+    species lists as `FillPopulationStatistics` does), turn over, evaluate, turn over, … - the champion of every species
+    whose quota exceeds five (the head of the list AFTER the epoch's own sort of the population that entered it) is
+    preserved unmodified into the next generation; the invariant holds for every population entering an epoch and for
+    the final one, which again holds exactly `PopSize` organisms partitioned into non-empty species. -/
+theorem runEpochs_keeps_champions_perm (o : EpochOpts W) (evs : List (Pop W → Pop W)) (gen : Int) (p p' : Pop W) (rs rs' : List Nat)
+    (hev : ∀ ev ∈ evs, ∀ q, EvalKeepsPerm q (ev q)) (hinv : ChampInv p)
+    (h : C02.runEpochs o evs gen p rs = .ok (p', rs')) :
+    ChampInv p' ∧ (runSteps o evs gen p rs).length = evs.length ∧
+    (∀ st ∈ runSteps o evs gen p rs, ChampInv st.1 ∧ KeepsChampions o st.1 st.2.1 st.2.2) ∧
+    (evs ≠ [] → p'.organisms.length = o.popSize ∧ p'.organisms.Nodup ∧ p'.organisms = C02.orgUids p'.species ∧
+      ∀ s ∈ p'.species, s.orgs ≠ []) := by
+  have hinvC02 := C02.runEpochs_inv_perm o evs gen p p' rs rs' (fun ev he q => (hev ev he q).1) hinv.uid hinv.spid h
+  refine ⟨?_, ?_, ?_, fun hne => by obtain ⟨a1, a2, a3, a4, _⟩ := hinvC02.2.2.2 hne; exact ⟨a1, a2, a3, a4⟩⟩
+  all_goals
+    induction evs generalizing gen p rs with
+    | nil =>
+      simp only [C02.runEpochs, Except.ok.injEq, Prod.mk.injEq] at h
+      obtain ⟨rfl, _⟩ := h
+      first
+        | exact hinv
+        | rfl
+        | (intro st hst; cases hst)
+    | cons ev evs ih =>
+      simp only [C02.runEpochs] at h
+      split at h
+      · cases h
+      · rename_i q1 rs1 h1
+        have hinv0 := champInv_evalPerm p (ev p) (hev ev (by simp) p) hinv
+        have hinv1 := nextEpoch_champInv o gen (ev p) q1 rs rs1 hinv0 h1
+        have hinvC02' := C02.runEpochs_inv_perm o evs (gen + 1) q1 p' rs1 rs' (fun e he q => (hev e (by simp [he]) q).1) hinv1.uid hinv1.spid h
+        have ih' := ih (gen + 1) q1 rs1 (fun e he => hev e (by simp [he])) hinv1 h hinvC02'
+        first
+          | exact ih'
+          | (simp only [runSteps, h1, List.length_cons]; rw [ih'])
+          | (intro st hst
+             simp only [runSteps, h1, List.mem_cons] at hst
+             rcases hst with rfl | hst
+             · refine ⟨hinv0, ?_⟩
+               intro p1 ex rs1' hprep
+               exact nextEpoch_keeps_champion o gen (ev p) q1 p1 ex rs rs1' rs1 hinv0.uid hinv0.spid.nodup hinv0.sc
+                 (refsOk_of_pool _ hinv0.pool) hprep h1
+             · exact ih' st hst)
+
+/-- the old theorem is an instance: `runEpochs_keeps_champions` from `runEpochs_keeps_champions_perm` -/
+theorem runEpochs_keeps_champions_of_perm (o : EpochOpts W) (evs : List (Pop W → Pop W)) (gen : Int) (p p' : Pop W) (rs rs' : List Nat)
+    (hev : ∀ ev ∈ evs, ∀ q, EvalKeeps q (ev q)) (hinv : ChampInv p)
+    (h : C02.runEpochs o evs gen p rs = .ok (p', rs')) :
+    ChampInv p' ∧ (runSteps o evs gen p rs).length = evs.length ∧
+    (∀ st ∈ runSteps o evs gen p rs, ChampInv st.1 ∧ KeepsChampions o st.1 st.2.1 st.2.2) ∧
+    (evs ≠ [] → p'.organisms.length = o.popSize ∧ p'.organisms.Nodup ∧ p'.organisms = C02.orgUids p'.species ∧
+      ∀ s ∈ p'.species, s.orgs ≠ []) :=
+  runEpochs_keeps_champions_perm o evs gen p p' rs rs' (fun ev he q => (hev ev he q).toPerm) hinv h
+
+/-! ### non-vacuity: a two-generation run whose evaluator assigns fitness values AND reverses every species list -/
+section RunExamplePerm
+open GoNeat.ExactInt
+attribute [local instance] intScalar
+
+/-- reverse the member list of every species (a within-species permutation that is not the identity) -/
+def revOrgs (p : Pop W) : Pop W := { p with species := p.species.map (fun s => { s with orgs := s.orgs.reverse }) }
+
+theorem revOrgs_speciesPerm (p : Pop W) : C02.SpeciesPerm p (revOrgs p) :=
+  ⟨rfl, C02.forall₂_map_self _ (fun s => ⟨rfl, List.reverse_perm s.orgs⟩) p.species⟩
+
+/-- the evaluation between the epochs: fitness by allocation id (`iEval`), then every species list reversed -/
+def iEvalRev : Pop Int → Pop Int := fun q => revOrgs (iEval q)
+
+theorem evalKeepsPerm_iEvalRev (q : Pop Int) : EvalKeepsPerm q (iEvalRev q) :=
+  (evalKeeps_setFitness _ q).toPerm.trans (evalKeepsPerm_of_speciesPerm (revOrgs_speciesPerm _))
+
+/-- the evaluator does change the order (so `EvalKeeps`, which fixes it, does not hold), both generations of the run
+    have a species with quota 8 (> 5), and the run returns organisms 16-23 in species 1 -/
+theorem exRunPerm_views :
+    ((iEvalRev iPop8).species.map (fun s => s.orgs.map (·.uid))) = [[7, 6, 5, 4, 3, 2, 1, 0]] ∧
+    (runSteps iOpts8 [iEvalRev, iEvalRev] 1 iPop8 stR).map (fun st => (prepView (prepareForReproduction iOpts8 st.1 st.2.1)).map
+        (fun r => (r.1, r.2.1))) = [[(1, 8)], [(1, 8)]] ∧
+    (popView (C02.runEpochs iOpts8 [iEvalRev, iEvalRev] 1 iPop8 stR)).map (fun r => (r.1, r.2.1)) =
+      [(1, 16), (1, 17), (1, 18), (1, 19), (1, 20), (1, 21), (1, 22), (1, 23)] := by decide +kernel
+
+example : ¬ EvalKeeps iPop8 (iEvalRev iPop8) := by
+  intro h
+  have := h.1.2.2.2
+  revert this
+  decide +kernel
+
+/-- the conclusion of `runEpochs_keeps_champions_perm`, instantiated: two epochs ran, and in each the champion of every
+    sizeable species was preserved -/
+example : ∃ p' rs', C02.runEpochs iOpts8 [iEvalRev, iEvalRev] 1 iPop8 stR = .ok (p', rs') ∧ ChampInv p' ∧
+    (runSteps iOpts8 [iEvalRev, iEvalRev] 1 iPop8 stR).length = 2 ∧
+    ∀ st ∈ runSteps iOpts8 [iEvalRev, iEvalRev] 1 iPop8 stR, ChampInv st.1 ∧ KeepsChampions iOpts8 st.1 st.2.1 st.2.2 := by
+  obtain ⟨p', rs', h⟩ := popView_ok (r := C02.runEpochs iOpts8 [iEvalRev, iEvalRev] 1 iPop8 stR)
+    (by intro h0; have := exRunPerm_views.2.2; rw [h0] at this; cases this)
+  obtain ⟨a, b, c, _⟩ := runEpochs_keeps_champions_perm iOpts8 [iEvalRev, iEvalRev] 1 iPop8 p' stR rs'
+    (by intro ev hev q
+        simp only [List.mem_cons, List.not_mem_nil, or_false, or_self] at hev
+        subst hev; exact evalKeepsPerm_iEvalRev q) exRun_inv h
+  exact ⟨p', rs', h, a, b, c⟩
+
+end RunExamplePerm
 
 end GoNeat.C10
 
